@@ -96,6 +96,45 @@ func (c *Ctx) Choose(kind Kind, label string, n int) int {
 	return v
 }
 
+// Prefix returns the choices this execution is replaying (used by harnesses that run
+// the execution itself in a fresh process and then re-declare its choice points).
+func (c *Ctx) Prefix() []int { return append([]int(nil), c.prefix...) }
+
+// OneExec is the outcome of a single execution run by RunOne.
+type OneExec struct {
+	Kinds      []int            `json:"kinds"`
+	Labels     []string         `json:"labels"`
+	Arities    []int            `json:"arities"`
+	Choices    []int            `json:"choices"`
+	Violations []Violation      `json:"violations"`
+	Counters   map[string]int64 `json:"counters"`
+	Obs        string           `json:"obs"`
+	Nontrivial []string         `json:"nontrivial"`
+	Skipped    bool             `json:"skipped"`
+	Panic      string           `json:"panic"`
+}
+
+// RunOne executes body exactly once with the given choice prefix and returns its trace and verdicts.
+func RunOne(property string, body func(*Ctx), prefix []int) OneExec {
+	e := NewExplorer(property, body, Bounds{EnvDev: -1, InputDev: -1}, 0, 1, 1)
+	e.captureKeys = true
+	r := e.run(prefix, true)
+	o := OneExec{Violations: r.viol, Counters: e.Stats.Counters, Obs: r.obs, Skipped: r.skipped, Nontrivial: e.keys}
+	for _, p := range r.trace {
+		o.Kinds = append(o.Kinds, int(p.kind))
+		o.Labels = append(o.Labels, p.label)
+		o.Arities = append(o.Arities, p.n)
+		o.Choices = append(o.Choices, p.c)
+	}
+	if r.panicV != nil {
+		o.Panic = fmt.Sprint(r.panicV)
+	}
+	for i := range o.Violations {
+		o.Violations[i].Detail = SanitizeDetail(o.Violations[i].Detail)
+	}
+	return o
+}
+
 // In picks one element index of an input alphabet of size n.
 func (c *Ctx) In(label string, n int) int { return c.Choose(Input, label, n) }
 
@@ -174,7 +213,12 @@ func (c *Ctx) Observing() bool { return c.logObs }
 func (c *Ctx) Outcome(key string) { c.ex.Stats.outcome(key) }
 
 // Nontrivial records a distinct non-trivial case (hashed).
-func (c *Ctx) Nontrivial(key string) { c.ex.Stats.nontrivial(key) }
+func (c *Ctx) Nontrivial(key string) {
+	c.ex.Stats.nontrivial(key)
+	if c.ex.captureKeys {
+		c.ex.keys = append(c.ex.keys, key)
+	}
+}
 
 // Count bumps a named counter.
 func (c *Ctx) Count(name string) { c.ex.Stats.Counters[name]++ }
@@ -262,8 +306,10 @@ type Explorer struct {
 	replayLabels []string
 	selfCheck    int
 	// Repass is the number of initial executions that are judged a second time at the end of the phase.
-	Repass    int
-	firstRuns [][]int
+	Repass      int
+	firstRuns   [][]int
+	captureKeys bool
+	keys        []string
 }
 
 // NewExplorer builds an explorer. shard/nshards select a slice of the tree:
